@@ -568,7 +568,11 @@ tx_outs:\n{tx_outs}
                 hash_type=hash_type,
             )
         elif script_pubkey.is_p2tr():
-            if len(tx_in.witness) > 1:
+            # BIP341: the annex does not count when telling key path from script path
+            num_items = len(tx_in.witness)
+            if tx_in.witness.has_annex():
+                num_items -= 1
+            if num_items > 1:
                 ext_flag = 1
             else:
                 ext_flag = 0
